@@ -136,6 +136,7 @@ struct Rng
         return z ^ (z >> 31);
     }
     double unit() { return (double)(next() >> 11) * (1.0 / 9007199254740992.0); }
+    uint64_t below(uint64_t n) { return n ? next() % n : 0; }
 };
 inline uint64_t mix(uint64_t a, uint64_t b)
 {
